@@ -65,6 +65,47 @@ Theorem c04_cut_chunked : forall cmds q s,
 Proof. exact load_aof_cut. Qed.
 Print Assumptions c04_cut_chunked.
 
+(* Tear and padding together, for loadAOF's own chunked loop: any byte prefix q of a log with zero runs of
+   any length before every command and at the tail loads as the commands wholly inside q; the valid size is
+   those commands with their padding plus the zero run z' that precedes the torn piece lo. *)
+Theorem c04_cut_padded : forall l ztail q s,
+  Forall (fun zc => cmd_ok (snd zc)) l -> q ++ s = padded l ++ repeat 0%N ztail ->
+  exists n z' lo,
+    q = padded (firstn n l) ++ repeat 0%N z' ++ lo /\
+    load_aof q = Loaded (map snd (firstn n l)) (len (padded (firstn n l)) + Z.of_nat z').
+Proof. exact load_aof_cut_padded. Qed.
+Print Assumptions c04_cut_padded.
+
+(* c04_zeros and c04_append_after for the chunked loader *)
+Theorem c04_zeros_chunked : forall l ztail,
+  Forall (fun zc => cmd_ok (snd zc)) l ->
+  load_aof (padded l ++ repeat 0%N ztail) = Loaded (map snd l) (len (padded l ++ repeat 0%N ztail)).
+Proof. exact load_aof_padded. Qed.
+Print Assumptions c04_zeros_chunked.
+
+Theorem c04_append_after_chunked : forall cmds q s more,
+  Forall cmd_ok cmds -> Forall cmd_ok more -> q ++ s = encs cmds ->
+  let kept := firstn (inside cmds (len q)) cmds in
+  load_aof q = Loaded kept (len (encs kept)) /\
+  load_aof (encs kept ++ encs more) = Loaded (kept ++ more) (len (encs kept ++ encs more)).
+Proof. exact load_aof_after_append. Qed.
+Print Assumptions c04_append_after_chunked.
+
+(* Open known finding C04-torn-then-padded: zero padding AFTER a torn command (a crash during an append
+   on a file system that zero-extends) is not repaired.  The torn prefix alone, or with fewer NULs than the
+   missing bytes, loads as [c1]; with 64 NULs the parser sees "invalid bulk length" and loadAOF fails.
+   c04_cut_padded is the partial statement that holds: padding at command boundaries only. *)
+Theorem c04_torn_then_padded_refuted :
+  let c1 := [[83; 69; 84]; [107]; [118]]%N in
+  let c2 := [[83; 69; 84]; [107]; [104; 101; 108; 108; 111; 32; 119; 111; 114; 108; 100]]%N in
+  let q := firstn 53 (encs [c1; c2]) in
+  cmd_ok c1 /\ cmd_ok c2 /\ (length q < length (encs [c1; c2]))%nat /\
+  load_whole q = Loaded [c1] 27 /\
+  load_aof (q ++ repeat 0%N 64) = LoadErr EBulk /\
+  load_aof (q ++ repeat 0%N 5) = Loaded [c1] 27.
+Proof. exact torn_then_padded_fails. Qed.
+Print Assumptions c04_torn_then_padded_refuted.
+
 (* non-vacuity: SET k "\r\n*$\000" cut inside the second command *)
 Example c04_nonvacuous :
   let c1 := [[83; 69; 84]; [107]; [13; 10; 42; 36; 0]]%N in
